@@ -948,6 +948,10 @@ def deserialize_function(proto: onnx.FunctionProto) -> _core.Function:
     inputs = [_core.Value(name=name) for name in proto.input]
     values: dict[str, _core.Value] = {v.name: v for v in inputs}  # type: ignore[misc]
     value_info = {info.name: info for info in getattr(proto, "value_info", [])}
+    # The serializer writes value info for function inputs as well (IR version >= 10)
+    for input_value in inputs:
+        if input_value.name in value_info:
+            deserialize_value_info_proto(value_info[input_value.name], input_value)
 
     for node in proto.node:
         _declare_node_outputs(
